@@ -51,46 +51,85 @@ type fLeaf struct {
 	restr []*openfgav1.RelationReference
 }
 
+func fCond(r *openfgav1.RelationReference) *openfgav1.RelationReference {
+	r.Condition = "k"
+	return r
+}
+
+const fFirstNonThis = 16 // index of the first leaf that is not a direct assignment
+const fNumLeaves = 22
+
+// fLeaves: the 22 leaf forms of relation x; y and z are the next relations (cyclically).
 func fLeaves(i, n int) []fLeaf {
 	x := fRelNames[i]
-	nxt := fRelNames[(i+1)%n]
+	y := fRelNames[(i+1)%n]
+	z := fRelNames[(i+2)%n]
+	R := func(rs ...*openfgav1.RelationReference) []*openfgav1.RelationReference { return rs }
 	return []fLeaf{
-		{"[user]", fThis(), []*openfgav1.RelationReference{fRef("user")}},
-		{"[user, employee]", fThis(), []*openfgav1.RelationReference{fRef("user"), fRef("employee")}},
-		{"[user:*]", fThis(), []*openfgav1.RelationReference{fWild("user")}},
-		{"[doc#" + nxt + "]", fThis(), []*openfgav1.RelationReference{fUserset("doc", nxt)}},
-		{"[user, doc#" + nxt + "]", fThis(), []*openfgav1.RelationReference{fRef("user"), fUserset("doc", nxt)}},
-		{"[doc#" + x + "]", fThis(), []*openfgav1.RelationReference{fUserset("doc", x)}},
-		{"[employee, user:* with k, user]", fThis(), []*openfgav1.RelationReference{fRef("employee"), {Type: "user", RelationOrWildcard: &openfgav1.RelationReference_Wildcard{Wildcard: &openfgav1.Wildcard{}}, Condition: "k"}, fRef("user"), {Type: "user", Condition: "k"}}},
-		{nxt, fComputed(nxt), nil},
+		{"[user]", fThis(), R(fRef("user"))},
+		{"[user, employee]", fThis(), R(fRef("user"), fRef("employee"))},
+		{"[user:*]", fThis(), R(fWild("user"))},
+		{"[employee:*]", fThis(), R(fWild("employee"))},
+		{"[doc#" + y + "]", fThis(), R(fUserset("doc", y))},
+		{"[doc#" + z + "]", fThis(), R(fUserset("doc", z))},
+		{"[doc#" + x + "]", fThis(), R(fUserset("doc", x))},
+		{"[user, doc#" + y + "]", fThis(), R(fRef("user"), fUserset("doc", y))},
+		{"[doc#" + y + ", user]", fThis(), R(fUserset("doc", y), fRef("user"))},
+		{"[doc#" + y + ", doc#" + z + "]", fThis(), R(fUserset("doc", y), fUserset("doc", z))},
+		{"[doc#" + z + ", doc#" + y + ", user]", fThis(), R(fUserset("doc", z), fUserset("doc", y), fRef("user"))},
+		{"[doc#" + y + ", user:*]", fThis(), R(fUserset("doc", y), fWild("user"))},
+		{"[employee:*, doc#" + y + "]", fThis(), R(fWild("employee"), fUserset("doc", y))},
+		{"[doc#" + y + " with k, user]", fThis(), R(fCond(fUserset("doc", y)), fRef("user"))},
+		{"[user, user with k]", fThis(), R(fRef("user"), fCond(fRef("user")))},
+		{"[employee, user:* with k, user, user with k]", fThis(), R(fRef("employee"), fCond(fWild("user")), fRef("user"), fCond(fRef("user")))},
+		{y, fComputed(y), nil},
+		{z, fComputed(z), nil},
 		{x, fComputed(x), nil},
-		{nxt + " from p", fTTU(nxt, "p"), nil},
+		{y + " from p", fTTU(y, "p"), nil},
+		{z + " from p", fTTU(z, "p"), nil},
 		{x + " from p", fTTU(x, "p"), nil},
 	}
 }
 
-const fFirstNonThis = 7 // index of the first leaf that is not a direct assignment
-
 var fOpNames = []string{" or ", " and ", " but not "}
 
-// fForm picks the rewrite of relation i: a leaf, or leaf op non-this-leaf.
-func fForm(tag string, i, n int, allowOps bool, leafMask int) (string, *openfgav1.Userset, []*openfgav1.RelationReference) {
+// fForm picks the rewrite of relation i.  L1<i> is the mask of leaves admitted
+// as the sole rewrite / first operand, L2<i> the mask of (non-this) leaves
+// admitted as second operand (0: no operators), OP<i> the mask of operators,
+// REV<i>=1 adds the forms with the operands swapped (computed userset first,
+// direct assignment second - only JSON models can say that).
+func fForm(i, n int) (string, *openfgav1.Userset, []*openfgav1.RelationReference) {
+	tag := fRelNames[i]
 	leaves := fLeaves(i, n)
-	var menu []fLeaf
+	l1mask := zzverif.Param(fmt.Sprintf("L1%d", i), (1<<fNumLeaves)-1)
+	l2mask := zzverif.Param(fmt.Sprintf("L2%d", i), 0)
+	opmask := zzverif.Param(fmt.Sprintf("OP%d", i), 7)
+	rev := zzverif.Param(fmt.Sprintf("REV%d", i), 0) == 1
+	seen := map[string]bool{}
+	var menu, second []fLeaf
 	for k, l := range leaves {
-		if leafMask == 0 || leafMask&(1<<k) != 0 {
+		if l1mask&(1<<k) != 0 && !seen[l.text] {
+			seen[l.text] = true
 			menu = append(menu, l)
 		}
 	}
-	var second []fLeaf
+	seen = map[string]bool{}
 	for k, l := range leaves {
-		if k >= fFirstNonThis {
+		if k >= fFirstNonThis && l2mask&(1<<k) != 0 && !seen[l.text] {
+			seen[l.text] = true
 			second = append(second, l)
 		}
 	}
-	forms := len(menu)
-	if allowOps {
-		forms += len(menu) * len(second) * 3
+	var ops []int
+	for o := 0; o < 3; o++ {
+		if opmask&(1<<o) != 0 {
+			ops = append(ops, o)
+		}
+	}
+	binary := len(menu) * len(second) * len(ops)
+	forms := len(menu) + binary
+	if rev {
+		forms += binary
 	}
 	c := zzverif.Choose(tag, forms)
 	if c < len(menu) {
@@ -98,30 +137,39 @@ func fForm(tag string, i, n int, allowOps bool, leafMask int) (string, *openfgav
 		return l.text, l.u, l.restr
 	}
 	c -= len(menu)
-	op := c % 3
-	c /= 3
+	swapped := false
+	if c >= binary {
+		c -= binary
+		swapped = true
+	}
+	op := ops[c%len(ops)]
+	c /= len(ops)
 	l2 := second[c%len(second)]
 	l1 := menu[c/len(second)]
+	if swapped {
+		return l2.text + fOpNames[op] + l1.text, fOp(op, l2.u, l1.u), l1.restr
+	}
 	return l1.text + fOpNames[op] + l2.text, fOp(op, l1.u, l2.u), l1.restr
 }
 
 // fFamilyModel: type doc with relations a[,b[,c]] and the tupleset p.
 func fFamilyModel() (*openfgav1.AuthorizationModel, string) {
 	n := zzverif.Param("R", 2)
-	parents := zzverif.Param("PARENTS", 1) // 1: p: [doc]; 2: p: [doc, org]
+	parents := zzverif.Param("PARENTS", 1) // 1: p: [doc]; 2: p: [doc, org]; 3: p: [doc, doc with k, org]
 	td := &openfgav1.TypeDefinition{Type: "doc", Relations: map[string]*openfgav1.Userset{}, Metadata: &openfgav1.Metadata{Relations: map[string]*openfgav1.RelationMetadata{}}}
 	var text []string
 	for i := 0; i < n; i++ {
-		allowOps := zzverif.Param(fmt.Sprintf("OPS%d", i), 0) == 1
-		mask := zzverif.Param(fmt.Sprintf("MASK%d", i), 0)
-		t, u, restr := fForm(fRelNames[i], i, n, allowOps, mask)
+		t, u, restr := fForm(i, n)
 		td.Relations[fRelNames[i]] = u
 		td.Metadata.Relations[fRelNames[i]] = &openfgav1.RelationMetadata{DirectlyRelatedUserTypes: restr}
 		text = append(text, fRelNames[i]+": "+t)
 	}
 	pr := []*openfgav1.RelationReference{fRef("doc")}
 	tds := []*openfgav1.TypeDefinition{{Type: "user"}, {Type: "employee"}, td}
-	if parents == 2 {
+	if parents >= 2 {
+		if parents == 3 {
+			pr = append(pr, fCond(fRef("doc")))
+		}
 		pr = append(pr, fRef("org"))
 		org := &openfgav1.TypeDefinition{Type: "org", Relations: map[string]*openfgav1.Userset{}, Metadata: &openfgav1.Metadata{Relations: map[string]*openfgav1.RelationMetadata{}}}
 		for i := 0; i < n; i++ {
@@ -129,7 +177,7 @@ func fFamilyModel() (*openfgav1.AuthorizationModel, string) {
 			org.Metadata.Relations[fRelNames[i]] = &openfgav1.RelationMetadata{DirectlyRelatedUserTypes: []*openfgav1.RelationReference{fRef("employee")}}
 		}
 		tds = append(tds, org)
-		text = append(text, "org.*: [employee]")
+		text = append(text, fmt.Sprintf("p: %d parents, org.*: [employee]", parents))
 	}
 	td.Relations["p"] = fThis()
 	td.Metadata.Relations["p"] = &openfgav1.RelationMetadata{DirectlyRelatedUserTypes: pr}
@@ -310,10 +358,12 @@ func verifBuildAndCompare(m *openfgav1.AuthorizationModel, key string) {
 	K := g.keySets()
 	verdict := g.specVerdict(K)
 	wg, err := (&WeightedAuthorizationModelGraphBuilder{}).Build(m)
-	if err != nil {
-		zzverif.Observe(key, "rejected")
-	} else {
-		zzverif.Observe(key, "accepted "+graphDigest(wg))
+	if key != "public-types" { // (symbolic names: no concrete digest)
+		if err != nil {
+			zzverif.Observe(key, "rejected")
+		} else {
+			zzverif.Observe(key, "accepted "+graphDigest(wg))
+		}
 	}
 	if mode == 6 {
 		return
@@ -347,7 +397,10 @@ func verifBuildAndCompare(m *openfgav1.AuthorizationModel, key string) {
 		"node-wildcards-are-reachable-public-types", "edge-wildcards-are-target's", "edges-one-to-one-with-rewrite"} {
 		zzverif.Class(l, cls)
 	}
-	c := &cmpCtx{wg: wg, g: g, K: K, W: g.weights(K), mode: mode, real: map[*sNode]*WeightedAuthorizationModelNode{}}
+	c := &cmpCtx{wg: wg, g: g, K: K, mode: mode, real: map[*sNode]*WeightedAuthorizationModelNode{}}
+	if mode == 4 || mode == 0 {
+		c.W = g.weights(K)
+	}
 	nops := 0
 	for _, n := range wg.nodes {
 		if n.nodeType == OperatorNode {
@@ -376,4 +429,31 @@ func verifBuildAndCompare(m *openfgav1.AuthorizationModel, key string) {
 func VerifGraph_Family() {
 	m, key := fFamilyModel()
 	verifBuildAndCompare(m, key)
+}
+
+// VerifC11_PublicTypes: three or four public (wildcard) types whose names are
+// symbolic and pairwise different - the solver chooses their lexical order -
+// reached through a union, so that wildcard lists are adopted by aliasing and
+// extended afterwards.
+func VerifC11_PublicTypes() {
+	n := 3 + zzverif.Choose("types", 2)
+	var ts []string
+	for i := 0; i < n; i++ {
+		t := zzverif.Str("type", 1, 1, "a-e")
+		for _, o := range ts {
+			zzverif.Assume(t != o)
+		}
+		ts = append(ts, "t"+t)
+	}
+	var first []*openfgav1.RelationReference
+	for _, t := range ts[:n-1] {
+		first = append(first, fWild(t))
+	}
+	td := &openfgav1.TypeDefinition{Type: "doc", Relations: map[string]*openfgav1.Userset{
+		"v": fThis(), "s": fThis(), "u": fOp(0, fComputed("v"), fComputed("s")), "w": fOp(0, fComputed("s"), fComputed("v"))},
+		Metadata: &openfgav1.Metadata{Relations: map[string]*openfgav1.RelationMetadata{
+			"v": {DirectlyRelatedUserTypes: first}, "s": {DirectlyRelatedUserTypes: []*openfgav1.RelationReference{fWild(ts[n-1])}}}}}
+	tds := []*openfgav1.TypeDefinition{td}
+	m := &openfgav1.AuthorizationModel{SchemaVersion: "1.1", TypeDefinitions: tds}
+	verifBuildAndCompare(m, "public-types")
 }
